@@ -488,6 +488,8 @@ Fixpoint plan_events (obs : seq nat) (p : cplan) (sizes : cls) : seq event :=
   | _, _ => [::]
   end.
 
+Definition symeig_logs (c : cls) : bool := match c with CDiag _ | CIdentity _ => false | _ => true end.
+
 (* events of running method m on class c; obs = operator batch shape, rbs = rhs batch shape,
    bb = broadcast of the two, cc = number of rhs columns *)
 Fixpoint method_events (s : settings) (obs rbs bb : seq nat) (cc : nat) (c : cls) (m : method) : seq event :=
@@ -505,8 +507,21 @@ Fixpoint method_events (s : settings) (obs rbs bb : seq nat) (cc : nat) (c : cls
              method_events s obs bb bb (N %/ csize f * cc) f m ++ go ms' fs'
          | _, _ => [::]
          end) ms fs
+  (* one symeig per Kronecker factor - except for Diag / Identity factors, whose _symeig reads the diagonal off *)
+  | MEigShift _, CKronAddedDiag fs _ =>
+      flatten (map (fun f => if symeig_logs f then [:: EEig (obs ++ [:: csize f; csize f])] else [::]) fs)
+  | MEigKron true _, CKronAddedDiag fs _ =>
+      flatten (map (fun f => if symeig_logs f then [:: EEig (obs ++ [:: csize f; csize f])] else [::]) fs)
   | MEigShift sizes, _ => map (fun n => EEig (obs ++ [:: n; n])) sizes
-  | MEigKron _ sizes, _ => map (fun n => EEig (obs ++ [:: n; n])) sizes      (* one symeig per factor *)
+  | MEigKron _ sizes, _ => map (fun n => EEig (obs ++ [:: n; n])) sizes      (* (symmetrised factors are dense) *)
+  | MSumKron _ sizes, CSumKron fs =>
+      (* as below; a Diag / Identity factor has a diagonal inverse root: no factorisation event *)
+      flatten (map (fun f => if (csize f == 1) || ~~ symeig_logs f then [::] else
+                             match choose_root_method s (csize f) with
+                             | RootCholesky => [:: EChol (obs ++ [:: csize f; csize f])]
+                             | RootLanczos => [::]
+                             end) fs)
+      ++ map (fun n => EEig (obs ++ [:: n; n])) sizes
   | MSumKron _ sizes, _ =>
       (* root_inv_decomposition() of every C_i with the method _choose_root_method picks (Cholesky below max_cholesky_size:
          one factorisation event, none for size 1; the Lanczos branch is the listed defect and has no event model), then
